@@ -46,8 +46,44 @@ def _field_of(path):
     return None
 
 
+def _filtered(node):
+    """True if the compared expression passes through a value-dependent selection (X[mask], X[X != c], np.unique, sort ...)
+    on its way from the field: positions are discarded, so different arrays can compare equal."""
+    cur = node
+    while True:
+        if isinstance(cur, ast.Subscript):
+            if not isinstance(cur.slice, ast.Constant):
+                return True
+            cur = cur.value
+        elif isinstance(cur, ast.Attribute):
+            cur = cur.value
+        elif isinstance(cur, ast.Call):
+            d = dotted(cur.func)
+            if d and d[-1] in ("unique", "sort", "sorted", "ravel", "flatten", "compressed", "nonzero", "where", "set"):
+                return True
+            if not cur.args and isinstance(cur.func, ast.Attribute):
+                cur = cur.func.value
+            else:
+                return False
+        else:
+            return False
+
+
+def _root_through_filters(node):
+    cur = node
+    while isinstance(cur, ast.Subscript) and not isinstance(cur.slice, ast.Constant):
+        cur = cur.value
+    return cur
+
+
 def classify_atom(atom, self_name, other_name):
     """-> (field, polarity, symmetric) ; polarity True: atom true means 'agrees'."""
+    if isinstance(atom, ast.Call):
+        d0 = dotted(atom.func)
+        if d0 and d0[-1] in ("array_equal", "array_equiv", "allclose") and len(atom.args) >= 2 and (_filtered(atom.args[0]) or _filtered(atom.args[1])):
+            r1, p1 = _strip_root(_root_through_filters(atom.args[0]))
+            if r1 in (self_name, other_name) and p1:
+                return "LOSSY:" + str(_field_of(p1)), True, True
     if isinstance(atom, ast.Call):
         fn = atom.func
         if isinstance(fn, ast.Name) and fn.id == "isinstance" and len(atom.args) == 2:
@@ -115,6 +151,12 @@ def check(run):
             )
             return
         infos.append(c)
+    for (fld, _pol, _sym), a in zip(infos, atoms):
+        if isinstance(fld, str) and fld.startswith("LOSSY:"):
+            run.violation("F-PATH/eq-field-compared", f"Grid.__eq__:compares:{fld[6:]}", where(eq, a),
+                          f"{fld[6:]} is compared only after a value-dependent selection ({norm(a)[:90]}): the positions of the entries are discarded, "
+                          "so grids whose arrays differ (e.g. the same node indices split differently into faces) compare equal")
+    infos = [((f[6:] if isinstance(f, str) and f.startswith("LOSSY:") else f), p_, s_) for f, p_, s_ in infos]
     fields = [f for f, _, _ in infos]
     run.stats["atoms"] = [norm(a) for a in atoms]
     run.stats["truth_assignments"] = len(table)
